@@ -770,6 +770,8 @@ func (s *State) applyFunction(name string, fn object.Object, args []object.Objec
 	s.Out = oldOut
 	var output []byte
 	if buf.Len() > 0 {
+		// The captured output (kept for the cache, copied into the caller's own capture) counts against the memory budget.
+		object.MustBeOk(buf.Len() / object.ObjectSize)
 		output = buf.Bytes()
 		_, err := s.Out.Write(output)
 		if err != nil {
